@@ -413,6 +413,30 @@ def gen_quantifier_nest(rng, reuse=False):
             "mode": rng.choice(["entity", "set_of"])}
 
 
+def gen_nested_quantifiers(rng):
+    """a quantified condition inside another one over a different variable: for_all(x, exists(x2, C(x, x2, y))) and the
+    other three combinations, negated or not, with y bound by a first conjunct or free"""
+    world = G.gen_world(rng)
+    vars_ = gen_vars(rng, world, 2, allow_empty=False)
+    for v in vars_:
+        v["type"] = "P"
+    vars_.append(dict(vars_[0], name="x2", dom=[rng.randrange(len(world)) for _ in range(rng.choice([1, 2, 2, 3]))]))
+    inner = ["cmp", rng.choice(CMP), ["attr", ["var", "x"], rng.choice("ab")], ["attr", ["var", "x2"], rng.choice("ab")]]
+    if rng.random() < 0.6:
+        about_y = ["cmp", rng.choice(CMP), ["attr", ["var", "y"], rng.choice("ab")], ["attr", ["var", rng.choice(["x", "x2"])], rng.choice("ab")]]
+        inner = [rng.choice(["and", "or"]), inner, about_y] if rng.random() < 0.7 else about_y
+    cond = [rng.choice(["forall", "exists"]), "x", [rng.choice(["forall", "exists"]), "x2", inner]]
+    binder = ["cmp", ">=", ["attr", ["var", "y"], "a"], ["lit", 0]]
+    if rng.random() < 0.7:
+        # (negated only where y is bound: a negated conjunction inside a quantified condition that is decided by its
+        # first conjunct leaves y unbound, and nothing enumerates it afterwards)
+        if rng.random() < 0.4:
+            cond = ["not", cond]
+        cond = ["and", binder, cond]
+    return {"world": world, "vars": vars_, "derived": [], "cond": cond, "select": [["var", "y"]],
+            "mode": rng.choice(["entity", "set_of"])}
+
+
 def gen_multiselect(rng, bound=True):
     """several selected expressions over the same variable: with a binding condition (bound=True)
     or without any condition mentioning it (the cross-product finding)"""
